@@ -13,8 +13,8 @@ Print Assumptions C13_memory_info_statm.
 (* the three regular-expression scans of _parse_smaps give, for every listing, the sums
    over all mappings of private (clean + dirty + hugetlb), proportional and swapped kB *)
 Theorem C13_smaps_sums : forall ex ms, forallb (wf_kernel ex) ms = true ->
-  smaps_sums (strip (k_smaps ms)) = spec_sums ms.
-Proof. exact smaps_sums_spec. Qed.
+  parse_smaps Alive (FContent (k_smaps ms)) = Val (spec_sums ms).
+Proof. exact parse_smaps_spec. Qed.
 Print Assumptions C13_smaps_sums.
 
 (* memory_full_info() with the per-mapping listing as the source (kernel without
